@@ -125,6 +125,28 @@ CLAIMS = {
              "informational. Known finding F8 (unguarded eval fall-through in povm_typical).",
         technique=TECH + "constant folding of the string/list fragment, path-sensitive guard evaluation, name-template resolution "
                          "and call binding, CFG definite assignment"),
+    "C04": dict(
+        text="Decides the structural clauses of the projection property for all inputs: (S1) every eigen-decomposition whose eigenvectors "
+             "are used reconstructs as V.diag(w).V-dagger with eigh (an eig routine with V-dagger, a plain transpose, a row access or "
+             "iteration over rows is reported); (S2) only negative eigenvalues are replaced, by 0; (S3) an interprocedural flow-sensitive "
+             "alias/effect analysis shows that none of the 16 projection methods, the optimiser closures and the two physical-projection "
+             "routines writes to an argument, through views and callees; (S4) equality projections write exactly the constrained "
+             "coordinates on a private copy (State, Gate), compute vec - mean + c (Povm) and spread (sum row0 - e0)/m (MProcess), "
+             "object- and variable-level siblings alike.",
+        note="Not decided: that the projections are nearest points, idempotence, agreement of object- and variable-level results as numbers.",
+        technique=TECH + "matrix-product normal form of spectral reconstructions, may-alias/mutation effect summaries over the call graph "
+                         "(view vs copy numpy table), linear-form comparison, CFG dominance"),
+    "C13": dict(
+        text="Decides the structural reasons results depend on arguments only: (N1) the effect summary of every function (about 1380 in the "
+             "quick tier, all 1530 of quara outside the optional-dependency adapters in the thorough tier) mutates no parameter, with "
+             "root-cause reporting and a three-entry allow-list of documented configuration calls; (N2) the nine lazy tables of "
+             "CompositeSystem are None-initialised, read only through guarded accessors, built from the immutable total basis, and "
+             "cleared one by one; (N3) bases and Povm store fresh, frozen arrays; (N4) copy() carries every stored field and deep-copies "
+             "the value; (N5) globals are written only by documented setters; (N6) algorithms re-set every field optimize reads.",
+        note="Not decided: byte-level equality over arbitrary interleavings (the rules are the structural reasons it can hold). Sparse "
+             "basis elements cannot be frozen by numpy flags and stay writable. Known finding F5 (cached projection closure).",
+        technique=TECH + "interprocedural alias/effect analysis with origin tracking, typestate/must-write analysis, cache-coherence "
+                         "rules over class attribute readers and writers"),
 }
 
 NOT_APPLICABLE = {
